@@ -860,6 +860,7 @@ type Machine struct {
 	emit      func(WorkItem)
 	funcsSeen map[*ssa.Function]struct{}
 	preempts  int
+	timers     []*timerRec
 	mapOrderOn bool // explore map iteration orders (rotations)
 	mapBudget  int  // non-default rotations left on this path (-1 unlimited)
 	schedFixed bool // scheduler runs goroutines to completion in a fixed order, no decisions
